@@ -111,7 +111,14 @@ fn chain_check(v: &ChainCase, rep: &mut Rep) -> Result<(), String> {
             }
             COp::Beyond(s) => {
                 // outside of the equivalence oracle: no panic, afterwards resynchronise with an in-range seek
-                let _ = chain.seek(SeekFrom::Start((n + 1 + *s as i64) as u64));
+                let beyond = 1 + *s as i64 / 3;
+                let _ = match *s % 3 {
+                    0 => chain.seek(SeekFrom::Start((n + beyond) as u64)),
+                    1 => chain.seek(SeekFrom::End(beyond)),
+                    _ => chain.seek(SeekFrom::Current(n - pos + beyond)),
+                };
+                // a read with an empty buffer returns 0 wherever the position is
+                ensure_eq!(chain.read(&mut []).map_err(|e| e.to_string())?, 0, "op {}: read into an empty buffer", oi);
                 let a = chain.seek(SeekFrom::Start(pos as u64)).map_err(|e| format!("op {}: seek error {}", oi, e))?;
                 ensure_eq!(a, pos as u64, "op {}: in-range seek after a seek beyond the end", oi);
             }
@@ -298,7 +305,7 @@ fn snapshot(dir: &Path) -> BTreeMap<PathBuf, Vec<u8>> {
 }
 
 static CASE_NR: std::sync::atomic::AtomicUsize = std::sync::atomic::AtomicUsize::new(0);
-const GLOBS: [&str; 9] = ["**/*", "*.dlt", "d1/**", "**/b0.dlt", "a0.dlt", "*", "[ab]*", "d1/*", "**/*.bin"];
+const GLOBS: [&str; 10] = ["**/*", "*.dlt", "d1/**", "**/b0.dlt", "a0.dlt", "*", "[ab]*", "d1/*", "**/*.bin", "[x]0.dlt"];
 
 fn zip_check(c: &ZipCase, rep: &mut Rep) -> Result<(), String> {
     let nr = CASE_NR.fetch_add(1, std::sync::atomic::Ordering::Relaxed);
@@ -349,8 +356,13 @@ fn zip_check_in(c: &ZipCase, rep: &mut Rep, root: &Path, nr: usize) -> Result<()
     rep.label_if(multi, "multi_volume");
     let arch_dir = root.join("arch");
     let first = if multi {
-        for (i, v) in vols.iter().enumerate() {
+        // (written last volume first: the order in the directory must not matter)
+        for (i, v) in vols.iter().enumerate().rev() {
             std::fs::write(arch_dir.join(format!("t{}.zip.{:03}", nr, i + 1)), v).map_err(|e| e.to_string())?;
+        }
+        // other files next to the volumes that do not belong to this archive
+        for decoy in [format!("t{}0.zip.001", nr), format!("x{}.zip.002", nr), format!("t{}.zip.0010", nr), format!("t{}.ZIP.002", nr), format!("t{}.zip.00a", nr)] {
+            std::fs::write(arch_dir.join(decoy), b"not a volume of this archive").map_err(|e| e.to_string())?;
         }
         arch_dir.join(format!("t{}.zip.001", nr))
     } else {
@@ -382,8 +394,10 @@ fn zip_check_in(c: &ZipCase, rep: &mut Rep, root: &Path, nr: usize) -> Result<()
     let pat = GLOBS[c.glob as usize % GLOBS.len()];
     let gp = glob::Pattern::new(pat).unwrap();
     let selected: Vec<String> = unique_names.iter().filter(|n| (*n == pat || gp.matches(n)) && !n.ends_with('/')).cloned().collect();
-    let expected: Vec<String> = match c.call % 3 {
-        0 => unique_names.iter().filter(|n| !n.ends_with('/') && !leads_outside(n)).cloned().collect(),
+    // extract_archives: "<archive>/<pattern>", "<archive>!/<pattern>" or the archive alone (= everything)
+    let form = if c.call % 3 == 2 { c.members.len() % 3 } else { 0 };
+    let expected: Vec<String> = match (c.call % 3, form) {
+        (0, _) | (2, 2) => unique_names.iter().filter(|n| !n.ends_with('/') && !leads_outside(n)).cloned().collect(),
         _ => selected.iter().filter(|n| !leads_outside(n)).cloned().collect(),
     };
     rep.label_if(!expected.is_empty() && expected.len() < unique_names.iter().filter(|n| !n.ends_with('/')).count(), "proper_subset_selected");
@@ -399,7 +413,12 @@ fn zip_check_in(c: &ZipCase, rep: &mut Rep, root: &Path, nr: usize) -> Result<()
         _ => {
             rep.label("extract_archives");
             let mut temp_dirs = vec![];
-            let arg = format!("{}/{}", first.display(), pat);
+            let arg = match form {
+                1 => format!("{}!/{}", first.display(), pat),
+                2 => first.display().to_string(),
+                _ => format!("{}/{}", first.display(), pat),
+            };
+            rep.label(["archive_slash_pattern", "archive_bang_pattern", "archive_alone"][form]);
             let log = slog::Logger::root(slog::Discard, slog::o!());
             let r = extract_archives(arg.clone(), &mut temp_dirs, &cancel, &log);
             if expected.is_empty() {
@@ -450,6 +469,14 @@ fn zip_check_in(c: &ZipCase, rep: &mut Rep, root: &Path, nr: usize) -> Result<()
     };
     if c.call % 3 != 2 {
         verify(&target, &reported, &expected, &by_name)?;
+        // and nothing else was written into the target directory (extracted but not reported)
+        let mut have: Vec<String> = snapshot(&target).iter().filter(|(p, _)| p.is_file()).map(|(p, _)| norm(p.strip_prefix(&target).unwrap_or(p))).collect();
+        have.sort();
+        have.dedup();
+        let mut want: Vec<String> = expected.iter().map(|n| norm(Path::new(n))).collect();
+        want.sort();
+        want.dedup();
+        ensure_eq!(have, want, "files in the target directory vs members to extract");
     }
     // nothing created or changed outside of the target directory
     let after = snapshot(root);
@@ -504,8 +531,8 @@ pub fn def(tier: Tier) -> PropertyDef {
         1 => (0u16..100).prop_map(COp::Negative),
     ];
     let chain = (prop_oneof![3 => 0u16..40, 2 => 0u16..200], prop::collection::vec(any::<u16>(), 0..6), prop::collection::vec(cop, 0..40));
-    let member = (0u8..14, 0u8..4, (prop::collection::vec(any::<u8>(), 1..16), prop_oneof![1 => Just(0usize), 5 => 1usize..200, 1 => 1usize..20000]), prop::bool::weighted(0.08)).prop_map(|(name_kind, n, (chunk, len), is_dir)| Member { name_kind, n, content: Fill { len, chunk }, is_dir });
-    let zipc = (prop::collection::vec(member, 1..9), any::<bool>(), prop_oneof![2 => Just(vec![]), 2 => prop::collection::vec(any::<u16>(), 1..4)], 0u8..9, 0u8..3).prop_map(|(members, deflate, volumes, glob, call)| ZipCase { members, deflate, volumes, glob, call });
+    let member = (0u8..14, 0u8..4, (prop::collection::vec(any::<u8>(), 1..16), prop_oneof![4 => Just(0usize), 20 => 1usize..200, 4 => 1usize..20000, 1 => 70_000usize..200_000]), prop::bool::weighted(0.08)).prop_map(|(name_kind, n, (chunk, len), is_dir)| Member { name_kind, n, content: Fill { len, chunk }, is_dir });
+    let zipc = (prop::collection::vec(member, 1..9), any::<bool>(), prop_oneof![2 => Just(vec![]), 2 => prop::collection::vec(any::<u16>(), 1..4)], 0u8..10, 0u8..3).prop_map(|(members, deflate, volumes, glob, call)| ZipCase { members, deflate, volumes, glob, call });
     PropertyDef {
         id: "C20",
         rule: "A: byte string (0..200) split into 1..6 volumes (empty ones included) -> SeekableChain over Cursors vs one Cursor over the concatenation under op sequences read(n) (until n or end), single read, seek(Start|Current|End) with in-range targets (same position, same bytes); out-of-range seeks only: no panic and later in-range seeks behave. B: zip archives (hand-written stored writer allowing duplicate/hostile names; deflate via the zip crate) with 1..8 members: nested, './', '//', spaces, unicode, glob characters, '../', 'd/../../', absolute (existing and not existing), directories, empty members; optionally split into .zip.001.. volumes on disk; calls list_archive_contents, extract_to_dir (with/without filter), extract_archives with 9 glob patterns. Oracle: listing = member names, reported paths exist below the target dir, bytes = member bytes, reported set = matching members with inside names, directory snapshot shows nothing created/changed outside. Non-trivial: A >=2 non-empty volumes and a boundary crossed after a backward seek; B >=2 members and (extract all or a proper subset selected).",
